@@ -118,6 +118,7 @@ Theorem C12_call_disclose_refused : forall cfg lookup now d caller req opts proc
     call_abort_cond caller opts = false -> cget (d_bycall d) (s_id caller, req) = None ->
     select_callee r oracle = Some (callee_id, next) -> lookup callee_id = Some callee ->
     call_feature_refused callee opts = false ->
+    call_ppt_abort caller opts = false -> call_ppt_refused callee opts = false ->
     opt_bool opts "disclose_me" = true -> reg_disclose r = false -> c_disclose cfg = false ->
     call cfg lookup now d caller req opts proc args kw oracle =
     CallRefused (call_d0 d r next) [(s_id caller, RError c_CALL req [] e_disclose_me [] [])] /\
